@@ -455,6 +455,9 @@ class Battery(object):
                     raise Violation("c09_es_child_async", "%s: child %d (%s) is_async=%r" % (mode, i, r["method"], ch.is_async), {"method": r["method"]})
                 want = ES_DESCR[r["method"]]
                 d = ch.description or ""
+                if getattr(r["obj"], "nameless_exit", False) and ".push(" in d:
+                    # its exit callable does not say that it is an __exit__: described as pushed
+                    continue
                 if want not in d:
                     raise Violation(
                         "c09_es_child_description",
